@@ -305,6 +305,18 @@ def ob_deltas(ctx, num, amounts: bool = True, conditions: bool = True):
                    ok, f, ds[0].node if ds else mv.anchor, construct=None if ds else f"{mv.kind}: missing {res} delta",
                    detail=f"expected `self.avail_{res}_pool {'+' if sign > 0 else '-'}= {amount}` in the block of `{stmt_text(mv.anchor)}`; "
                           f"found {[stmt_text(d.node) for d in ds]}")
+        if amounts:
+            # an allocation/release must not be separated from its move by something that can raise (assert/raise): the counters would change without the move
+            aid = pa.g.node_of(mv.anchor).id
+            site_ids = {pa.g.node_of(s).id for s in mv.sites} | {aid}
+            for d in mv.deltas:
+                did = pa.g.node_of(d.node).id
+                if did in site_ids:
+                    continue
+                esc = pa.g.path_avoiding(did, {pa.g.raise_.id}, site_ids) if not pa.g.dominates(mv.anchor, d.node) else None
+                ctx.ob(num, "K4", f"move {mv.kind}: nothing that can raise lies between the change of free {d.res.upper()} and the move itself "
+                       "(an exception there would lose or duplicate the allocation)", esc is None, f, d.node, construct=f"{mv.kind}: {d.res} delta atomic with the move",
+                       detail="no assert/raise between them" if esc is None else f"path to an exception after the delta and before the move: {pa.g.describe_path(esc)}")
         req = pa.cond_required(mv) if conditions else None
         if req is not None:
             fs = pa.g.facts_at(mv.anchor)
